@@ -28,7 +28,12 @@ import (
 // has been decided (the client->handler direction is a FIFO pipeline), and the
 // handler answers it with a sentinel NOTICE; when that reaches the client every
 // earlier reply/server message has come out (handler->client is FIFO per stage).
-// Between two sentinels the oracle therefore sees the complete effect of a batch.
+// Between two sentinels the oracle therefore sees everything a batch forwarded and
+// every scripted server message. The statement fixes no order between a rejection
+// and unrelated server messages, so a rejection that has not arrived when its
+// window closes stays pending and may arrive in any later window of the session; it
+// is missing only if it is still absent after a final bounded wait and the end of
+// the session (inbound channel closed, ServeNostr returned).
 //
 // Oracle: the predicates of the statement, written here from the statement (never by
 // calling the middleware bases).
@@ -47,6 +52,7 @@ var (
 	c17TVals   = []string{"x", "y", ""}
 	c17Sig     = strings.Repeat("ab", 64)
 	c17Abort   atomic.Int32 // number of expired waits; sessions stop starting once it is >= 2
+	c17Lost    atomic.Int32 // sessions that ended with a rejection still missing; sessions stop starting once it is >= 6
 )
 
 // ---------------------------------------------------------------------------
@@ -1008,6 +1014,35 @@ type c17Exp struct {
 
 type c17Viol struct{ sig, what string }
 
+// c17Pend is a rejection that is owed to the client but has not been seen yet.
+type c17Pend struct{ culprit, label, json string }
+
+func c17CopyPend(p map[string][]c17Pend) map[string][]c17Pend {
+	out := make(map[string][]c17Pend, len(p))
+	for k, l := range p {
+		if len(l) > 0 {
+			out[k] = append([]c17Pend(nil), l...)
+		}
+	}
+	return out
+}
+
+// c17ServerReplyKey classifies a message received by the client as a rejection reply
+// (OK / CLOSED outside the namespace of the scripted server messages).
+func c17ServerReplyKey(o mocrelay.ServerMsg, scripted []c17SItem) (key string, acceptedTrue bool) {
+	switch m := o.(type) {
+	case *mocrelay.ServerOKMsg:
+		if m != nil && !c17IsScriptedOK(scripted, m) {
+			return "OK:" + m.EventID, m.Accepted
+		}
+	case *mocrelay.ServerClosedMsg:
+		if m != nil && !strings.HasPrefix(m.SubscriptionID, "S:") {
+			return "CLOSED:" + m.SubscriptionID, false
+		}
+	}
+	return "", false
+}
+
 func c17ServerLabel(m mocrelay.ServerMsg) string {
 	if m == nil || reflect.ValueOf(m).IsNil() {
 		return "nil"
@@ -1027,8 +1062,12 @@ func c17ReplyKey(msg mocrelay.ClientMsg) string {
 	return ""
 }
 
-func c17Judge(items []c17Item, exp []c17Exp, scripted []c17SItem, D []mocrelay.ClientMsg, O []mocrelay.ServerMsg) (vs []c17Viol) {
+// c17Judge judges one window. pendIn are the rejections owed from earlier windows of
+// the session; pendOut additionally holds the rejections this batch calls for that
+// have not arrived yet (late counts the ones from earlier windows that arrived now).
+func c17Judge(items []c17Item, exp []c17Exp, scripted []c17SItem, D []mocrelay.ClientMsg, O []mocrelay.ServerMsg, pendIn map[string][]c17Pend) (vs []c17Viol, pendOut map[string][]c17Pend, late int) {
 	add := func(sig, what string) { vs = append(vs, c17Viol{sig, what}) }
+	pendOut = c17CopyPend(pendIn)
 
 	// client -> handler direction
 	used := make([]bool, len(items))
@@ -1101,27 +1140,21 @@ func c17Judge(items []c17Item, exp []c17Exp, scripted []c17SItem, D []mocrelay.C
 	usedS := make([]bool, len(scripted))
 	lastS := -1
 	for _, o := range O {
-		replyKey := ""
-		switch m := o.(type) {
-		case *mocrelay.ServerOKMsg:
-			if m != nil && !c17IsScriptedOK(scripted, m) {
-				replyKey = "OK:" + m.EventID
-				if m.Accepted {
-					add("reply/ok-accepted-true", "a rejection reply claims the event was accepted: "+vk.JSON(o))
-				}
-			}
-		case *mocrelay.ServerClosedMsg:
-			if m != nil && !strings.HasPrefix(m.SubscriptionID, "S:") {
-				replyKey = "CLOSED:" + m.SubscriptionID
-			}
+		replyKey, acceptedTrue := c17ServerReplyKey(o, scripted)
+		if acceptedTrue {
+			add("reply/ok-accepted-true", "a rejection reply claims the event was accepted: "+vk.JSON(o))
 		}
 		if replyKey != "" {
-			if l := wantReply[replyKey]; len(l) > 0 {
+			if l := pendOut[replyKey]; len(l) > 0 {
+				// owed since an earlier window of this session
+				pendOut[replyKey] = l[1:]
+				late++
+			} else if l := wantReply[replyKey]; len(l) > 0 {
 				wantReply[replyKey] = l[1:]
 			} else if k, ok := fwdKey[replyKey]; ok {
 				add("replied/should-forward/"+c17Label(items[k].snap), "a message respecting every limit was answered with a rejection "+vk.JSON(o)+": "+items[k].js())
 			} else {
-				add("extra-reply/"+c17ServerLabel(o), "the client received a rejection reply no message of this batch calls for: "+vk.JSON(o))
+				add("extra-reply/"+c17ServerLabel(o), "the client received a rejection reply no message of this session still calls for: "+vk.JSON(o))
 			}
 			continue
 		}
@@ -1163,10 +1196,46 @@ func c17Judge(items []c17Item, exp []c17Exp, scripted []c17SItem, D []mocrelay.C
 			add("dropped/server/"+c17ServerLabel(scripted[k].snap), "a server message emitted by the handler never reached the client: "+vk.JSON(scripted[k].snap))
 		}
 	}
-	for _, l := range wantReply {
+	// rejections that have not arrived yet stay owed: the statement fixes no order
+	// between a rejection and unrelated server messages
+	for key, l := range wantReply {
 		for _, k := range l {
-			add("missing-reply/"+exp[k].culprit+"/"+c17Label(items[k].snap), "message violating the limit ("+exp[k].culprit+") was not answered with the rejection for its type: "+items[k].js())
+			pendOut[key] = append(pendOut[key], c17Pend{exp[k].culprit, c17Label(items[k].snap), items[k].js()})
 		}
+	}
+	return
+}
+
+// c17JudgeTail judges what arrived after the last window (final wait and session
+// end): only owed rejections may still arrive; what is still owed afterwards is missing.
+func c17JudgeTail(tail []mocrelay.ServerMsg, pendIn map[string][]c17Pend) (vs []c17Viol, resolved int) {
+	pend := c17CopyPend(pendIn)
+	for _, o := range tail {
+		key, acceptedTrue := c17ServerReplyKey(o, nil)
+		if acceptedTrue {
+			vs = append(vs, c17Viol{"reply/ok-accepted-true", "a rejection reply claims the event was accepted: " + vk.JSON(o)})
+		}
+		switch l := pend[key]; {
+		case key != "" && len(l) > 0:
+			pend[key] = l[1:]
+			resolved++
+		case key != "":
+			vs = append(vs, c17Viol{"extra-reply/" + c17ServerLabel(o), "the client received a rejection reply no message of this session still calls for: " + vk.JSON(o)})
+		default:
+			vs = append(vs, c17Viol{"altered-or-invented/server/after-last-sync", "the client received a server message nobody emitted: " + vk.JSON(o)})
+		}
+	}
+	for _, l := range pend {
+		for _, x := range l {
+			vs = append(vs, c17Viol{"missing-reply/" + x.culprit + "/" + x.label, "message violating the limit (" + x.culprit + ") was never answered with the rejection for its type, not even after a final wait and the end of the session: " + x.json})
+		}
+	}
+	return
+}
+
+func c17PendCount(p map[string][]c17Pend) (n int) {
+	for _, l := range p {
+		n += len(l)
 	}
 	return
 }
@@ -1191,6 +1260,7 @@ type c17Quota struct {
 	outer bool
 	open  map[string]bool
 	dead  bool
+	pend  map[string][]c17Pend // rejections owed under this model and not seen yet
 }
 
 func (q *c17Quota) expect(cfg *c17Cfg, msg mocrelay.ClientMsg) c17Exp {
@@ -1220,6 +1290,10 @@ func (q *c17Quota) expect(cfg *c17Cfg, msg mocrelay.ClientMsg) c17Exp {
 func c17RunSession(rep *vk.Report, cfg *c17Cfg, r *rand.Rand, tag string, nBatches int) {
 	if c17Abort.Load() >= 2 {
 		rep.Count("sessions_skipped_after_timeouts", 1)
+		return
+	}
+	if c17Lost.Load() >= 6 {
+		rep.Count("sessions_skipped_after_lost_rejections", 1)
 		return
 	}
 	start := time.Now()
@@ -1323,7 +1397,13 @@ func c17RunSession(rep *vk.Report, cfg *c17Cfg, r *rand.Rand, tag string, nBatch
 			for i, it := range items {
 				exp[i] = q.expect(cfg, it.snap)
 			}
-			vs := c17Judge(items, exp, scripted, res.D, res.O)
+			vs, pend, late := c17Judge(items, exp, scripted, res.D, res.O, q.pend)
+			if len(vs) == 0 {
+				q.pend = pend
+				if okExp == nil && late > 0 {
+					rep.Count("rejections_arrived_in_a_later_window", int64(late))
+				}
+			}
 			if len(vs) > 0 {
 				q.dead = true
 				if firstViol == nil {
@@ -1413,16 +1493,102 @@ func c17RunSession(rep *vk.Report, cfg *c17Cfg, r *rand.Rand, tag string, nBatch
 		}
 	}
 
+	// rejections still owed: bounded passive wait (nothing is fed any more), then the
+	// session is ended by closing the inbound channel; only what is still absent after
+	// ServeNostr returned is missing
+	var tail []mocrelay.ServerMsg
+	owed := func() bool {
+		for _, q := range models {
+			if q.dead {
+				continue
+			}
+			if vs, _ := c17JudgeTail(tail, q.pend); len(vs) == 0 {
+				return false
+			}
+		}
+		return true
+	}
+	waited := false
+	if owed() {
+		waited = true
+		t := time.NewTimer(c17Wait)
+	wait:
+		for owed() {
+			select {
+			case m := <-s.send:
+				tail = append(tail, m)
+			case <-t.C:
+				break wait
+			}
+		}
+		t.Stop()
+	}
 	finished = true
-	extraD, extraO, returned := s.finish()
+	var extraD []mocrelay.ClientMsg
+	var extraO []mocrelay.ServerMsg
+	var returned bool
+	if owed() {
+		close(s.recv)
+		t := time.NewTimer(c17Wait)
+		select {
+		case err := <-s.done:
+			s.done <- err // finish() reads it again
+			returned = true
+		case <-t.C:
+		}
+		t.Stop()
+	}
+	{
+		d, o, r := s.finish()
+		extraD, extraO, returned = d, o, returned || r
+	}
+	tail = append(tail, extraO...)
 	if !returned {
-		rep.Inconclusive(phase + " session " + tag + ": ServeNostr did not return within the bound after cancellation")
+		rep.Inconclusive(phase + " session " + tag + ": ServeNostr did not return within the bound after the end of the session")
 	}
 	if len(extraD) > 0 {
 		rep.Violation(phase+"/altered-or-invented/client/after-last-sync", "the downstream handler received a client message nobody sent: "+vk.JSON(extraD[0]), map[string]any{"config": cfg, "extra": vk.JSON(extraD)})
 	}
-	if len(extraO) > 0 {
-		rep.Violation(phase+"/altered-or-invented/server/after-last-sync", "the client received a server message nobody emitted: "+vk.JSON(extraO[0]), map[string]any{"config": cfg, "extra": vk.JSON(extraO)})
+	var tailViol []c17Viol
+	tailOK := false
+	for _, q := range models {
+		if q.dead {
+			continue
+		}
+		vs, resolved := c17JudgeTail(tail, q.pend)
+		if len(vs) == 0 {
+			tailOK = true
+			if resolved > 0 {
+				rep.Count("rejections_arrived_in_the_final_wait", int64(resolved))
+			}
+			break
+		}
+		q.dead = true
+		if tailViol == nil {
+			tailViol = vs
+		}
+	}
+	if !tailOK {
+		lost := false
+		seen := map[string]bool{}
+		var tl []string
+		for _, x := range tail {
+			tl = append(tl, vk.JSON(x))
+		}
+		for _, v := range tailViol {
+			if strings.HasPrefix(v.sig, "missing-reply/") {
+				lost = true
+			}
+			if seen[v.sig] {
+				continue
+			}
+			seen[v.sig] = true
+			rep.Violation(phase+"/"+v.sig, v.what, map[string]any{"config": cfg, "waited_passively": waited, "serve_returned": returned, "client_received_after_last_window": tl, "elapsed_ms": time.Since(start).Milliseconds()})
+		}
+		if lost {
+			c17Lost.Add(1)
+		}
+		return
 	}
 	rep.Count(phase+"_sessions", 1)
 	if models[0].dead && len(models) > 1 {
@@ -1527,9 +1693,10 @@ func c17NIP11Doc(r *rand.Rand, variant int) (*mocrelay.NIP11, []c17MW) {
 
 func TestVerif_C17(t *testing.T) {
 	rep := vk.NewReport(t, "C17", "exploration")
-	rep.Rule = "sessions through the real wrapper mw(recordingHandler).ServeNostr: (single) each of the 10 stateless limit middlewares alone, (stack) 2-6 of them in a seeded order, (nip11) BuildMiddlewareFromNIP11 for every subset of the seven limits (max_subscriptions, max_filters, max_limit, max_event_tags, max_content_length, created_at lower/upper) and for documents without a limitation block; a session is 8-30 batches of 1-4 client messages (EVENT/REQ/COUNT/CLOSE/AUTH with sizes 0, limit-1, limit, limit+1 and far above each configured limit, multi-filter REQ/COUNT with the violating limit first/last/mixed, timestamps >= 90 s from every moving boundary, sub ids/content never with byte and rune length on different sides of a limit) interleaved with 0-3 scripted server messages of all seven types; every batch is closed by a sentinel round trip and judged: handler-side log == sent messages that respect every limit (deep-equal to the pre-send copy, in order), client-side log == scripted server messages (deep-equal, in order) plus exactly one OK(false,id)/CLOSED(sub id) per violating message; evaluation = one judged client message; non-trivial = every judged message; distinct = distinct (phase, middleware kind, message type, size classes, verdict)"
+	rep.Rule = "sessions through the real wrapper mw(recordingHandler).ServeNostr: (single) each of the 10 stateless limit middlewares alone, (stack) 2-6 of them in a seeded order, (nip11) BuildMiddlewareFromNIP11 for every subset of the seven limits (max_subscriptions, max_filters, max_limit, max_event_tags, max_content_length, created_at lower/upper) and for documents without a limitation block; a session is 8-30 batches of 1-4 client messages (EVENT/REQ/COUNT/CLOSE/AUTH with sizes 0, limit-1, limit, limit+1 and far above each configured limit, multi-filter REQ/COUNT with the violating limit first/last/mixed, timestamps >= 90 s from every moving boundary, sub ids/content never with byte and rune length on different sides of a limit) interleaved with 0-3 scripted server messages of all seven types; every batch is closed by a sentinel round trip and judged: handler-side log == sent messages that respect every limit (deep-equal to the pre-send copy, in order), client-side log == scripted server messages (deep-equal, in order) plus exactly one OK(false,id)/CLOSED(sub id) per violating message (a rejection may also arrive in a later window of the same session; it is missing only if still absent after a final bounded wait and the end of the session); evaluation = one judged client message; non-trivial = every judged message; distinct = distinct (phase, middleware kind, message type, size classes, verdict)"
 	rep.Assume("created_at verdicts use the wall clock read at session start; generated timestamps keep 90 s from every boundary and sessions slower than 25 s are discarded")
 	rep.Assume("CLOSE messages naming an over-long sub id, AUTH messages whose event violates an event limit, and strings whose byte and rune lengths fall on different sides of a limit are not generated (the statement does not decide them)")
+	rep.Assume("the statement fixes no order between a rejection and unrelated server messages: a rejection not yet seen when the sentinel of its batch returns stays owed until the session has ended (final wait of 15 s, inbound channel closed, ServeNostr returned); duplicates and rejections nobody is owed are violations in whatever window they arrive")
 	rep.Assume("the statement does not fix the position of max_subscriptions in the NIP-11 chain: a session must be consistent with the quota counting either every REQ or only the REQs that pass the other limits")
 	defer rep.Finish()
 
@@ -1581,6 +1748,9 @@ func TestVerif_C17(t *testing.T) {
 		c17RunSession(rep, cfg, r, fmt.Sprintf("n%d", i), n)
 	})
 
+	if n := rep.Counter("sessions_skipped_after_lost_rejections"); n > 0 {
+		rep.Set("sessions_not_run_after_six_sessions_lost_a_rejection", n)
+	}
 	if n := rep.Counter("sessions_skipped_after_timeouts"); n > 0 {
 		rep.Inconclusive(fmt.Sprintf("%d sessions were not run after two waits had expired", n))
 	}
